@@ -584,3 +584,483 @@ Proof. unfold swap. intros s now a ps s' H. inv_ok H. reflexivity. Qed.
 Theorem burn_disabled_token_pays_nothing : forall ts p outs, withdraw_coins ts p = Ok outs ->
   forall d, (forall t, In t ts -> t_denom t = d -> t_wd t = false) -> ssum outs d = 0.
 Proof. exact withdraw_coins_disabled. Qed.
+(* ---------------------------------------------------------------- recorded reserves never go negative *)
+Lemma add_token_nonneg : forall ts d x, reserves_nonneg ts ->
+  (forall t, find_token ts d = Some t -> 0 <= t_amount t + x) -> reserves_nonneg (add_token ts d x).
+Proof.
+  induction ts as [|t r IH]; cbn [add_token find_token]; intros d x Hn Hx; [exact Hn|].
+  assert (Hr : reserves_nonneg r) by (intros u Hu; apply Hn; right; exact Hu).
+  destruct (t_denom t =? d) eqn:Q.
+  - intros u [<-|Hu]; [cbn [with_amount t_amount]; apply Hx; reflexivity|apply Hr; exact Hu].
+  - intros u [<-|Hu]; [apply Hn; left; reflexivity|]. apply (IH d x Hr Hx u Hu).
+Qed.
+Lemma reserve_nonneg : forall ts d, reserves_nonneg ts -> 0 <= reserve ts d.
+Proof.
+  unfold reserve. induction ts as [|t r IH]; cbn [find_token]; intros d Hn; [lia|].
+  destruct (t_denom t =? d); [apply Hn; left; reflexivity|]. apply IH. intros u Hu; apply Hn; right; exact Hu.
+Qed.
+Lemma reserve_le_rsum : forall ts d, reserves_nonneg ts -> reserve ts d <= rsum ts d.
+Proof.
+  unfold reserve. induction ts as [|t r IH]; cbn [find_token]; intros d Hn; [rewrite rsum_nil; lia|].
+  assert (Hr : reserves_nonneg r) by (intros u Hu; apply Hn; right; exact Hu).
+  rewrite rsum_cons. pose proof (rsum_nonneg r d Hr). specialize (IH d Hr).
+  assert (0 <= t_amount t) by (apply Hn; left; reflexivity).
+  destruct (t_denom t =? d); lia.
+Qed.
+Lemma find_token_in : forall ts d t, find_token ts d = Some t -> In t ts.
+Proof.
+  induction ts as [|u r IH]; cbn [find_token]; intros d t H; [discriminate|].
+  destruct (t_denom u =? d); [injection H as <-; left; reflexivity|right; eapply IH; eauto].
+Qed.
+
+Lemma coins_valid_from_pos : forall cs lo, coins_valid_from lo cs = true -> forall c, In c cs -> 0 < snd c.
+Proof.
+  induction cs as [|[d x] r IH]; cbn [coins_valid_from]; intros lo H c Hc; [destruct Hc|].
+  apply andb_prop in H. destruct H as [H1 H2]. apply andb_prop in H1. destruct H1 as [H0 _].
+  destruct Hc as [<-|Hc]; [cbn [snd]; lia|]. eapply IH; eauto.
+Qed.
+Lemma inc_tokens_nonneg : forall cs ts ts', inc_tokens ts cs = Ok ts' -> (forall c, In c cs -> 0 < snd c) ->
+  reserves_nonneg ts -> reserves_nonneg ts'.
+Proof.
+  induction cs as [|[e y] r IH]; cbn [inc_tokens]; intros ts ts' H Hp Hn.
+  - injection H as <-. exact Hn.
+  - destruct (find_token ts e) eqn:F; [|discriminate].
+    apply (IH _ _ H); [intros c Hc; apply Hp; right; exact Hc|].
+    apply add_token_nonneg; [exact Hn|]. intros u Hu.
+    assert (0 <= t_amount u) by (apply Hn; eapply find_token_in; eauto).
+    specialize (Hp (e, y) (or_introl eq_refl)). cbn [snd] in Hp. lia.
+Qed.
+Lemma dec_tokens_nonneg : forall cs ts ts', dec_tokens ts cs = Ok ts' -> reserves_nonneg ts -> reserves_nonneg ts'.
+Proof.
+  induction cs as [|[e y] r IH]; cbn [dec_tokens]; intros ts ts' H Hn.
+  - injection H as <-. exact Hn.
+  - destruct (find_token ts e) eqn:F; [|discriminate].
+    destruct (t_amount t - y <? 0) eqn:C; [discriminate|].
+    apply (IH _ _ H). apply add_token_nonneg; [exact Hn|]. intros u Hu. rewrite F in Hu. injection Hu as <-. lia.
+Qed.
+Lemma slash_token_nonneg : forall ts d sl ts', slash_token ts d sl = Ok ts' -> reserves_nonneg ts -> reserves_nonneg ts'.
+Proof.
+  induction ts as [|t r IH]; cbn [slash_token]; intros d sl ts' H Hn.
+  - injection H as <-. exact Hn.
+  - destruct (slash_token r d sl) as [rest| |] eqn:E; cbn [bind] in H; try discriminate.
+    assert (Hr : reserves_nonneg rest) by (eapply IH; eauto; intros u Hu; apply Hn; right; exact Hu).
+    assert (Ht : 0 <= t_amount t) by (apply Hn; left; reflexivity).
+    destruct (t_denom t =? d).
+    + destruct (dmul (t_weight t) (dec_one - sl)); cbn [bind] in H; try discriminate. injection H as <-.
+      intros u [<-|Hu]; [exact Ht|apply Hr; exact Hu].
+    + injection H as <-. intros u [<-|Hu]; [exact Ht|apply Hr; exact Hu].
+Qed.
+
+Lemma swap_pair_nonneg : forall b now a acc p acc', swap_pair b now a acc p = Ok acc' ->
+  reserves_nonneg (a_ts acc) -> reserves_nonneg (a_ts acc').
+Proof.
+  unfold swap_pair. intros b now a acc [[din xin] dout] acc' H Hn. inv_ok H. injection H as <-. cbn [a_ts].
+  apply add_token_nonneg.
+  - apply add_token_nonneg; [exact Hn|]. intros u Hu.
+    assert (0 <= t_amount u) by (apply Hn; eapply find_token_in; eauto). lia.
+  - intros u Hu. rewrite M1 in Hu. injection Hu as <-. lia.
+Qed.
+Lemma swap_pairs_nonneg : forall ps b now a acc acc', swap_pairs b now a acc ps = Ok acc' ->
+  reserves_nonneg (a_ts acc) -> reserves_nonneg (a_ts acc').
+Proof.
+  induction ps as [|p r IH]; cbn [swap_pairs]; intros b now a acc acc' H Hn.
+  - injection H as <-. exact Hn.
+  - destruct (swap_pair b now a acc p) as [acc1| |] eqn:E; cbn [bind] in H; try discriminate.
+    eapply IH; eauto. eapply swap_pair_nonneg; eauto.
+Qed.
+
+(* ---------------------------------------------------------------- EditBasket *)
+Lemma edit_tokens_spec : forall old new seen ts', edit_tokens old seen new = Ok ts' -> reserves_nonneg old ->
+  reserves_nonneg ts' /\
+  forall d, rsum ts' d <= reserve old d /\ (has_denom seen d = true -> rsum ts' d = 0).
+Proof.
+  induction new as [|t r IH]; cbn [edit_tokens]; intros seen ts' H Hn.
+  - injection H as <-. split; [intros u []|]. intros d. rewrite rsum_nil. pose proof (reserve_nonneg old d Hn). split; [lia|reflexivity].
+  - destruct (t_weight t =? 0); [discriminate|].
+    destruct (has_denom seen (t_denom t)) eqn:S; [discriminate|].
+    destruct (edit_tokens old (t :: seen) r) as [rest| |] eqn:E; cbn [bind] in H; try discriminate.
+    injection H as <-. destruct (IH _ _ E Hn) as [Rn Rd]. split.
+    + intros u [<-|Hu]; [cbn [with_amount t_amount]; apply reserve_nonneg; exact Hn|apply Rn; exact Hu].
+    + intros d. rewrite rsum_cons. cbn [with_amount t_denom t_amount].
+      destruct (Rd d) as [R1 R2]. cbn [has_denom] in R2.
+      pose proof (reserve_nonneg old d Hn) as R0.
+      destruct (t_denom t =? d) eqn:Q.
+      * assert (t_denom t = d) by lia. subst d. rewrite (R2 eq_refl). split; [lia|]. intros K. congruence.
+      * split; [lia|]. intros K. rewrite K in R2. cbn [orb] in R2. rewrite (R2 eq_refl). reflexivity.
+Qed.
+
+(* ---------------------------------------------------------------- invariant over histories, with edits *)
+Definition InvE (s : state) : Prop := Books s /\ fee_ok (s_bk s) /\ reserves_nonneg (b_tokens (s_bk s)).
+(* every operation of a holder, every accepted or rejected edit proposal with a fee in [0,1] on a
+   tree whose EditBasket keeps the stored amount (68b9c08), switches, hooks, weight slashes, end
+   blocks; the pool-upsert hook only where it skips (proposed repair) *)
+Definition op_okE (v : variant) (o : op) : Prop :=
+  match o with
+  | OMint _ a _ | OBurn _ a _ _ | OSwap _ a _ => a <> MODULE
+  | OEdit new => v_edit_keep v = true /\ fee_ok new
+  | OUpsertHook se => se = false \/ v_upsert_skip v = true
+  | _ => True
+  end.
+
+Lemma step_invE : forall v s o s', step v s o = Ok s' -> op_okE v o -> InvE s -> InvE s'.
+Proof.
+  intros v s o s' H Hok (B & F & N). destruct o; cbn [step] in H; cbn [op_okE] in Hok.
+  - split; [eapply mint_books; eauto|]. unfold mint in H. inv_ok H. injection H as <-.
+    cbn [s_bk b_tokens set_amount set_tokens]. split; [exact F|].
+    eapply inc_tokens_nonneg; eauto. apply (coins_valid_from_pos dep None). unfold coins_valid in C0. destruct (coins_valid_from None dep); [reflexivity|discriminate].
+  - split; [eapply burn_books; eauto|]. unfold burn in H. inv_ok H. injection H as <-.
+    cbn [s_bk b_tokens set_amount set_tokens]. split; [exact F|]. eapply dec_tokens_nonneg; eauto.
+  - split; [eapply swap_books; eauto|]. unfold swap in H. inv_ok H. injection H as <-.
+    cbn [s_bk b_tokens set_surplus set_tokens]. split; [exact F|].
+    eapply swap_pairs_nonneg in E0; [exact E0|exact N].
+  - destruct Hok as [Hv Hf]. unfold edit in H. rewrite Hv in H. inv_ok H. injection H as <-.
+    destruct (edit_tokens_spec _ _ _ _ E N) as [Rn Rd]. destruct B as [B1 B2].
+    split; [|split; [exact Hf|exact Rn]].
+    split; [exact B1|]. intros d. cbn [s_bk s_bal b_tokens b_surplus set_amount set_surplus set_tokens].
+    destruct (Rd d) as [R1 _]. pose proof (reserve_le_rsum _ d N). specialize (B2 d). lia.
+  - destruct (negb allowed); [discriminate|]. injection H as <-. split; [exact B|split; [exact F|exact N]].
+  - injection H as <-. split; [exact B|split; [exact F|exact N]].
+  - injection H as <-. split; [exact B|split; [exact F|exact N]].
+  - destruct (slash_token (b_tokens (s_bk s)) d slash) as [ts| |] eqn:E; cbn [bind] in H; try discriminate.
+    injection H as <-. split; [|split; [exact F|eapply slash_token_nonneg; eauto]]. destruct B as [B1 B2]. split; [exact B1|].
+    intros d'. cbn [with_bk s_bk s_bal set_tokens b_tokens b_surplus]. rewrite (slash_token_rsum _ _ _ _ E d'). apply B2.
+  - injection H as <-. split; [exact B|split; [exact F|exact N]].
+  - assert (K : stake_enabled && negb (v_upsert_skip v) = false) by (destruct Hok as [->| ->]; [reflexivity|destruct stake_enabled; reflexivity]).
+    rewrite K in H. injection H as <-. split; [exact B|split; [exact F|exact N]].
+Qed.
+
+Theorem books_match_bank_with_edits : forall v ops s, Forall (op_okE v) ops -> InvE s -> InvE (run v s ops).
+Proof.
+  intros v ops. unfold run. induction ops as [|o r IH]; cbn [fold_left]; intros s Hok I; [exact I|].
+  inversion Hok as [|? ? H1 H2]; subst. apply IH; [exact H2|].
+  unfold apply. destruct (step v s o) as [s'| |] eqn:E; try exact I. eapply step_invE; eauto.
+Qed.
+(* ---------------------------------------------------------------- backing *)
+(* reserves valued at the weights (scaled by 10^18), and how far the supply exceeds them *)
+Definition value (ts : list token) : Z := zsum (map (fun t => t_weight t * t_amount t) ts).
+Definition gap (s : state) : Z := s_supply s * PREC - value (b_tokens (s_bk s)).
+Definition Backed (s : state) : Prop := gap s <= 0.
+Definition wof (ts : list token) (d : Z) : option Z := option_map t_weight (find_token ts d).
+
+Lemma value_cons : forall t ts, value (t :: ts) = t_weight t * t_amount t + value ts.
+Proof. reflexivity. Qed.
+Lemma add_token_value : forall ts d x t, find_token ts d = Some t -> value (add_token ts d x) = value ts + t_weight t * x.
+Proof.
+  induction ts as [|u r IH]; cbn [find_token add_token]; intros d x t H; [discriminate|].
+  destruct (t_denom u =? d).
+  - injection H as <-. rewrite !value_cons. cbn [with_amount t_weight t_amount]. unfold dec in *. lia.
+  - rewrite !value_cons, (IH _ _ _ H). lia.
+Qed.
+Lemma add_token_wof : forall ts d x e, wof (add_token ts d x) e = wof ts e.
+Proof.
+  unfold wof. induction ts as [|u r IH]; cbn [find_token add_token]; intros d x e; [reflexivity|].
+  destruct (t_denom u =? d) eqn:Q; cbn [find_token with_amount t_denom].
+  - destruct (t_denom u =? e); reflexivity.
+  - destruct (t_denom u =? e); [reflexivity|apply IH].
+Qed.
+Definition wvalue (ts : list token) (cs : coins) : Z :=
+  zsum (map (fun c => match wof ts (fst c) with Some w => snd c * w | None => 0 end) cs).
+Lemma dep_value_wvalue : forall ts cs, dep_value ts cs = wvalue ts cs.
+Proof.
+  unfold dep_value, wvalue, wof. intros ts cs. f_equal. apply map_ext. intros c. destruct (find_token ts (fst c)); reflexivity.
+Qed.
+Lemma wvalue_ext : forall ts ts' cs, (forall e, wof ts' e = wof ts e) -> wvalue ts' cs = wvalue ts cs.
+Proof. intros ts ts' cs H. unfold wvalue. f_equal. apply map_ext. intros c. rewrite H. reflexivity. Qed.
+
+Lemma inc_tokens_value : forall cs ts ts', inc_tokens ts cs = Ok ts' -> value ts' = value ts + wvalue ts cs.
+Proof.
+  induction cs as [|[e y] r IH]; cbn [inc_tokens]; intros ts ts' H.
+  - injection H as <-. unfold wvalue. simpl. lia.
+  - destruct (find_token ts e) eqn:F; [|discriminate].
+    assert (W : wvalue ts ((e, y) :: r) = y * t_weight t + wvalue ts r).
+    { unfold wvalue. cbn [map fst snd]. unfold wof at 1. rewrite F. cbn [option_map]. reflexivity. }
+    rewrite (IH _ _ H), (add_token_value _ _ _ _ F), (wvalue_ext ts _ r), W by (intros; apply add_token_wof).
+    unfold dec in *. lia.
+Qed.
+
+Theorem mint_keeps_backing : forall s now a dep s', mint s now a dep = Ok s' -> gap s' <= gap s.
+Proof.
+  intros s now a dep s' H. pose proof (mint_le_value _ _ _ _ _ H) as (M0 & M1 & M2).
+  unfold mint in H. inv_ok H. injection H as Hs. subst s'. unfold gap in *.
+  cbn [s_supply s_bk b_tokens b_amount set_amount set_tokens] in *.
+  rewrite (inc_tokens_value _ _ _ E0), <- dep_value_wvalue. lia.
+Qed.
+
+(* swap: per pair the value of the reserves falls by at most half of 10^-18 of the out weight *)
+Definition pair_slack (ts : list token) (p : Z * Z * Z) : Z :=
+  match wof ts (snd p) with Some w => w / (2 * PREC) + 1 | None => 0 end.
+Definition weights_pos (ts : list token) : Prop := forall d w, wof ts d = Some w -> 0 < w.
+
+Lemma swap_pair_value_kept : forall b now a acc p acc', swap_pair b now a acc p = Ok acc' -> fee_ok b ->
+  weights_pos (a_ts acc) ->
+  value (a_ts acc) <= value (a_ts acc') + pair_slack (a_ts acc) p /\ (forall e, wof (a_ts acc') e = wof (a_ts acc) e).
+Proof.
+  unfold swap_pair, fee_ok. intros b now a acc [[din xin] dout] acc' H Hf Wp.
+  inv_ok H. injection H as <-. cbn [a_ts]. split; [|intros e; rewrite !add_token_wof; reflexivity].
+  assert (Wi : 0 < t_weight t) by (apply (Wp din); unfold wof; rewrite M; reflexivity).
+  assert (Wo : 0 < t_weight t0) by (apply (Wp dout); unfold wof; rewrite M0; reflexivity).
+  assert (W1 : t_weight t1 = t_weight t0).
+  { pose proof (add_token_wof (a_ts acc) din (trunc_int a1) dout) as K. unfold wof in K. rewrite M1, M0 in K. cbn [option_map] in K. congruence. }
+  rewrite (add_token_value _ _ _ _ M1), (add_token_value _ _ _ _ M), W1.
+  unfold pair_slack. cbn [snd]. unfold wof. rewrite M0. cbn [option_map].
+  apply dmul_int_l in E0, E1. unfold dec, dec_one in *. subst a1 a2.
+  pose proof PREC_pos as HP.
+  set (A1 := xin * (PREC - b_fee b)) in *.
+  assert (X0 : 0 <= A1) by (apply Z.mul_nonneg_nonneg; lia).
+  pose proof (chop_trunc_nonneg A1 X0) as TN. unfold trunc_int in *.
+  set (sa := chop_trunc A1) in *.
+  assert (Q0 : 0 <= sa * t_weight t) by (apply Z.mul_nonneg_nonneg; lia).
+  apply dquo_bound in E2; [|exact Q0|exact Wo]. destruct E2 as [R0 R1].
+  pose proof (chop_trunc_bounds a3 R0) as TB3. set (out := chop_trunc a3) in *.
+  assert (K1 : 2 * (out * PREC) * t_weight t0 <= 2 * a3 * t_weight t0) by (apply Z.mul_le_mono_nonneg_r; lia).
+  set (wo := t_weight t0) in *. set (wi := t_weight t) in *.
+  assert (K2 : 2 * PREC * (out * wo) <= 2 * PREC * (sa * wi) + wo) by (clearbody out sa wo wi; clear - K1 R1 HP; nia).
+  pose proof (Z.div_mod wo (2 * PREC) ltac:(lia)) as DM. pose proof (Z.mod_pos_bound wo (2 * PREC) ltac:(lia)) as MB.
+  set (q := wo / (2 * PREC)) in *. set (m := wo mod (2 * PREC)) in *.
+  clearbody out sa wo wi q m. clear - K2 DM MB HP. nia.
+Qed.
+
+Fixpoint pairs_slack (ts : list token) (ps : list (Z * Z * Z)) : Z :=
+  match ps with [] => 0 | p :: r => pair_slack ts p + pairs_slack ts r end.
+Lemma pair_slack_ext : forall ts ts' p, (forall e, wof ts' e = wof ts e) -> pair_slack ts' p = pair_slack ts p.
+Proof. intros ts ts' p H. unfold pair_slack. rewrite H. reflexivity. Qed.
+Lemma pairs_slack_ext : forall ps ts ts', (forall e, wof ts' e = wof ts e) -> pairs_slack ts' ps = pairs_slack ts ps.
+Proof. induction ps as [|p r IH]; intros ts ts' H; cbn [pairs_slack]; [reflexivity|]. rewrite (pair_slack_ext ts ts' p H), (IH ts ts' H). reflexivity. Qed.
+
+Lemma swap_pairs_value_kept : forall ps b now a acc acc', swap_pairs b now a acc ps = Ok acc' -> fee_ok b ->
+  weights_pos (a_ts acc) -> value (a_ts acc) <= value (a_ts acc') + pairs_slack (a_ts acc) ps.
+Proof.
+  induction ps as [|p r IH]; cbn [swap_pairs pairs_slack]; intros b now a acc acc' H Hf Wp.
+  - injection H as <-. lia.
+  - destruct (swap_pair b now a acc p) as [acc1| |] eqn:E; cbn [bind] in H; try discriminate.
+    destruct (swap_pair_value_kept _ _ _ _ _ _ E Hf Wp) as [V1 W1].
+    assert (Wp1 : weights_pos (a_ts acc1)) by (intros d w Hd; rewrite W1 in Hd; eapply Wp; eauto).
+    pose proof (IH _ _ _ _ _ H Hf Wp1) as V2. rewrite (pairs_slack_ext r _ _ W1) in V2. lia.
+Qed.
+
+Theorem swap_keeps_backing : forall s now a ps s', swap s now a ps = Ok s' -> fee_ok (s_bk s) ->
+  weights_pos (b_tokens (s_bk s)) -> gap s' <= gap s + pairs_slack (b_tokens (s_bk s)) ps.
+Proof.
+  intros s now a ps s' H Hf Wp. unfold swap in H. inv_ok H. injection H as <-. unfold gap.
+  cbn [s_supply s_bk b_tokens set_surplus set_tokens].
+  pose proof (swap_pairs_value_kept _ _ _ _ _ _ E0 Hf Wp) as V. cbn [a_ts] in V. lia.
+Qed.
+
+(* edit: the guard leaves the supply covered by the NEW valuation *)
+Lemma token_values_sum : forall ts vs, token_values ts = Ok vs -> zsum vs = value ts.
+Proof.
+  induction ts as [|t r IH]; cbn [token_values]; intros vs H.
+  - injection H as <-. reflexivity.
+  - unfold token_value in H. destruct (dmul (dec_of_int (t_amount t)) (t_weight t)) as [x| |] eqn:M; cbn [bind] in H; try discriminate.
+    destruct (token_values r) as [rest| |] eqn:E; cbn [bind] in H; try discriminate. injection H as <-.
+    apply dmul_int_l in M. change (zsum (x :: rest)) with (x + zsum rest). rewrite value_cons, (IH _ eq_refl). rewrite M, (Z.mul_comm (t_amount t)). reflexivity.
+Qed.
+Theorem edit_restores_backing : forall v s new s', edit v s new = Ok s' -> 0 < s_supply s' -> Backed s'.
+Proof.
+  intros v s new s' H Hs. destruct (edit_leaves_supply_covered _ _ _ _ H) as (vs & T & L).
+  apply token_values_sum in T. unfold Backed, gap. rewrite <- T.
+  assert (H0 : 0 <= zsum vs). { destruct (Z_lt_le_dec (zsum vs) 0); [|lia]. pose proof (chop_trunc_nonpos (zsum vs) ltac:(lia)). unfold trunc_int in *. lia. }
+  pose proof (chop_trunc_bounds _ H0). unfold trunc_int in *. pose proof PREC_pos. nia.
+Qed.
+(* ---------------------------------------------------------------- backing over histories *)
+Definition weights_all_pos (ts : list token) : Prop := forall t, In t ts -> 0 < t_weight t.
+Lemma weights_all_pos_wof : forall ts, weights_all_pos ts -> weights_pos ts.
+Proof.
+  intros ts H d w Hw. unfold wof in Hw. destruct (find_token ts d) as [t|] eqn:F; [|discriminate].
+  injection Hw as <-. apply H. eapply find_token_in; eauto.
+Qed.
+Lemma add_token_weights : forall ts d x, weights_all_pos ts -> weights_all_pos (add_token ts d x).
+Proof.
+  induction ts as [|u r IH]; cbn [add_token]; intros d x H; [exact H|].
+  assert (Hr : weights_all_pos r) by (intros t Ht; apply H; right; exact Ht).
+  assert (Hu : 0 < t_weight u) by (apply H; left; reflexivity).
+  destruct (t_denom u =? d).
+  - intros t [<-|Ht]; [exact Hu|apply Hr; exact Ht].
+  - intros t [<-|Ht]; [exact Hu|apply (IH d x Hr); exact Ht].
+Qed.
+Lemma inc_tokens_weights : forall cs ts ts', inc_tokens ts cs = Ok ts' -> weights_all_pos ts -> weights_all_pos ts'.
+Proof.
+  induction cs as [|[e y] r IH]; cbn [inc_tokens]; intros ts ts' H W; [injection H as <-; exact W|].
+  destruct (find_token ts e); [|discriminate]. apply (IH _ _ H). apply add_token_weights. exact W.
+Qed.
+Lemma swap_pairs_weights : forall ps b now a acc acc', swap_pairs b now a acc ps = Ok acc' ->
+  weights_all_pos (a_ts acc) -> weights_all_pos (a_ts acc').
+Proof.
+  induction ps as [|p r IH]; cbn [swap_pairs]; intros b now a acc acc' H W; [injection H as <-; exact W|].
+  destruct (swap_pair b now a acc p) as [acc1| |] eqn:E; cbn [bind] in H; try discriminate.
+  apply (IH _ _ _ _ _ H). destruct p as [[din xin] dout]. unfold swap_pair in E. inv_ok E. injection E as <-. cbn [a_ts].
+  apply add_token_weights, add_token_weights. exact W.
+Qed.
+Lemma edit_tokens_weights : forall old new seen ts', edit_tokens old seen new = Ok ts' -> weights_all_pos new -> weights_all_pos ts'.
+Proof.
+  induction new as [|t r IH]; cbn [edit_tokens]; intros seen ts' H W; [injection H as <-; intros u []|].
+  destruct (t_weight t =? 0); [discriminate|]. destruct (has_denom seen (t_denom t)); [discriminate|].
+  destruct (edit_tokens old (t :: seen) r) as [rest| |] eqn:E; cbn [bind] in H; try discriminate. injection H as <-.
+  intros u [<-|Hu]; [cbn [with_amount t_weight]; apply W; left; reflexivity|].
+  apply (IH _ _ E); [intros x Hx; apply W; right; exact Hx|exact Hu].
+Qed.
+Lemma value_nonneg : forall ts, weights_all_pos ts -> reserves_nonneg ts -> 0 <= value ts.
+Proof.
+  induction ts as [|t r IH]; intros W N; [unfold value; simpl; lia|]. rewrite value_cons.
+  assert (0 < t_weight t) by (apply W; left; reflexivity). assert (0 <= t_amount t) by (apply N; left; reflexivity).
+  assert (0 <= value r) by (apply IH; [intros u Hu; apply W; right; exact Hu|intros u Hu; apply N; right; exact Hu]).
+  unfold dec in *. nia.
+Qed.
+Lemma pairs_slack_nonneg : forall ps ts, weights_pos ts -> 0 <= pairs_slack ts ps.
+Proof.
+  induction ps as [|p r IH]; intros ts W; cbn [pairs_slack]; [lia|]. specialize (IH ts W).
+  unfold pair_slack. destruct (wof ts (snd p)) as [w|] eqn:F; [|lia].
+  pose proof (W _ _ F). pose proof PREC_pos. assert (0 <= w / (2 * PREC)) by (apply Z.div_pos; lia). lia.
+Qed.
+
+Definition InvB (s : state) : Prop :=
+  fee_ok (s_bk s) /\ weights_all_pos (b_tokens (s_bk s)) /\ reserves_nonneg (b_tokens (s_bk s)) /\ 0 <= s_supply s.
+(* histories of mints and multi-pair swaps by anybody, edit proposals (positive weights, fee in [0,1]),
+   switches, the slash / raise hooks as they are, end blocks; burns are the refuted part *)
+Definition op_okB (v : variant) (o : op) : Prop :=
+  match o with
+  | OBurn _ _ _ _ => False
+  | OSlashW _ _ => False
+  | OEdit new => fee_ok new /\ weights_all_pos (b_tokens new)
+  | OUpsertHook se => se = false \/ v_upsert_skip v = true
+  | _ => True
+  end.
+Definition op_slack (s : state) (o : op) : Z :=
+  match o with OSwap _ _ ps => pairs_slack (b_tokens (s_bk s)) ps | _ => 0 end.
+Fixpoint run_slack (v : variant) (s : state) (ops : list op) : Z :=
+  match ops with [] => 0 | o :: r => op_slack s o + run_slack v (apply v s o) r end.
+
+Lemma op_slack_nonneg : forall s o, InvB s -> 0 <= op_slack s o.
+Proof.
+  intros s o (_ & W & _). destruct o; cbn [op_slack]; try lia. apply pairs_slack_nonneg, weights_all_pos_wof, W.
+Qed.
+
+Lemma step_backed : forall v s o s', step v s o = Ok s' -> op_okB v o -> InvB s ->
+  InvB s' /\ gap s' <= Z.max (gap s) 0 + op_slack s o.
+Proof.
+  intros v s o s' H Hok (F & W & N & S0). destruct o; cbn [step] in H; cbn [op_okB op_slack] in *.
+  - pose proof (mint_keeps_backing _ _ _ _ _ H) as G. pose proof (mint_le_value _ _ _ _ _ H) as (M0 & _ & M2).
+    split; [|lia]. unfold mint in H. inv_ok H. injection H as Hs. subst s'.
+    unfold InvB. cbn [s_bk s_supply b_tokens b_amount set_amount set_tokens] in *.
+    split; [exact F|split; [|split; [|lia]]].
+    + eapply inc_tokens_weights; eauto.
+    + eapply inc_tokens_nonneg; eauto. apply (coins_valid_from_pos dep None). unfold coins_valid in C0. destruct (coins_valid_from None dep); [reflexivity|discriminate].
+  - contradiction.
+  - pose proof (swap_keeps_backing _ _ _ _ _ H F (weights_all_pos_wof _ W)) as G. split; [|lia].
+    unfold swap in H. inv_ok H. injection H as <-. unfold InvB. cbn [s_bk s_supply b_tokens set_surplus set_tokens].
+    split; [exact F|split; [|split; [|exact S0]]].
+    + eapply swap_pairs_weights in E0; [exact E0|exact W].
+    + eapply swap_pairs_nonneg in E0; [exact E0|exact N].
+  - destruct Hok as [Hf Hw]. pose proof (edit_restores_backing _ _ _ _ H) as G.
+    assert (I' : InvB s').
+    { unfold edit in H. inv_ok H. injection H as <-. destruct (edit_tokens_spec _ _ _ _ E N) as [Rn _].
+      pose proof (edit_tokens_weights _ _ _ _ E Hw) as Rw.
+      unfold InvB. destruct (v_edit_keep v); cbn [s_bk s_supply b_tokens set_amount set_surplus set_tokens]; (split; [exact Hf|split; [exact Rw|split; [exact Rn|exact S0]]]). }
+    split; [exact I'|]. destruct I' as (_ & W' & N' & S').
+    destruct (Z_lt_le_dec 0 (s_supply s')) as [P|P]; [specialize (G P); unfold Backed in G; lia|].
+    pose proof (value_nonneg _ W' N'). unfold gap. pose proof PREC_pos. nia.
+  - destruct (negb allowed); [discriminate|]. injection H as <-. split; [split; [exact F|split; [exact W|split; [exact N|exact S0]]]|unfold gap; cbn [with_bk s_bk s_supply set_flags b_tokens]; lia].
+  - injection H as <-. split; [split; [exact F|split; [exact W|split; [exact N|exact S0]]]|lia].
+  - injection H as <-. split; [split; [exact F|split; [exact W|split; [exact N|exact S0]]]|lia].
+  - contradiction.
+  - injection H as <-. split; [split; [exact F|split; [exact W|split; [exact N|exact S0]]]|unfold gap; cbn [s_bk s_supply]; lia].
+  - assert (K : stake_enabled && negb (v_upsert_skip v) = false) by (destruct Hok as [->| ->]; [reflexivity|destruct stake_enabled; reflexivity]).
+    rewrite K in H. injection H as <-. split; [split; [exact F|split; [exact W|split; [exact N|exact S0]]]|lia].
+Qed.
+
+(* Over every such history the supply exceeds the weighted reserves by at most what it did at the
+   start plus the accumulated rounding slack of the swaps (half of 10^-18 of the out weight per pair) *)
+Theorem backed_over_histories : forall v ops s, Forall (op_okB v) ops -> InvB s ->
+  InvB (run v s ops) /\ gap (run v s ops) <= Z.max (gap s) 0 + run_slack v s ops.
+Proof.
+  intros v ops. induction ops as [|o r IH]; intros s Hok I.
+  - cbn [run fold_left run_slack]. split; [exact I|lia].
+  - inversion Hok as [|? ? H1 H2]; subst. pose proof (op_slack_nonneg s o I) as SN.
+    change (run v s (o :: r)) with (run v (apply v s o) r). cbn [run_slack].
+    assert (A : InvB (apply v s o) /\ gap (apply v s o) <= Z.max (gap s) 0 + op_slack s o).
+    { unfold apply. destruct (step v s o) as [s'| |] eqn:E; [eapply step_backed; eauto|split; [exact I|lia]|split; [exact I|lia]]. }
+    destruct A as [I' G]. destruct (IH _ H2 I') as [I'' G']. split; [exact I''|lia].
+Qed.
+
+(* ... and burns on the current code break it outright (not by rounding): the witness of
+   burn_pro_rata_refuted leaves a supply of 1000 backed by reserves worth 0 *)
+Lemma wit_backed_b : (gap wit_state <=? 0) && match burn current wit_state 0 1 0 1000 with Ok s' => gap s' =? 1000 * PREC | _ => false end = true.
+Proof. vm_compute. reflexivity. Qed.
+Theorem backed_refuted : exists s a x s', Books s /\ Backed s /\ burn current s 0 a 0 x = Ok s' /\ gap s' = x * PREC.
+Proof.
+  exists wit_state, 1, 1000. pose proof wit_backed_b as H. apply andb_prop in H. destruct H as [H1 H2].
+  destruct (burn current wit_state 0 1 0 1000) as [s'| |]; try discriminate.
+  exists s'. split; [exact wit_books|]. split; [unfold Backed; lia|]. split; [reflexivity|lia].
+Qed.
+(* ---------------------------------------------------------------- swap on a basket without reserves *)
+Lemma dmul_zero_l : forall w, dmul (dec_of_int 0) w = Ok 0.
+Proof. reflexivity. Qed.
+Lemma token_values_zero : forall ts, (forall t, In t ts -> t_amount t = 0) -> exists vs, token_values ts = Ok vs /\ forall x, In x vs -> x = 0.
+Proof.
+  induction ts as [|t r IH]; intros H; [exists []; split; [reflexivity|intros x []]|].
+  destruct IH as (vs & E & Z0); [intros u Hu; apply H; right; exact Hu|].
+  exists (0 :: vs). cbn [token_values]. unfold token_value. rewrite (H t (or_introl eq_refl)), dmul_zero_l. cbn [bind]. rewrite E. cbn [bind].
+  split; [reflexivity|]. intros x [<-|Hx]; [reflexivity|apply Z0; exact Hx].
+Qed.
+Lemma zsum_zero : forall vs, (forall x, In x vs -> x = 0) -> zsum vs = 0.
+Proof.
+  induction vs as [|x r IH]; intros H; [reflexivity|]. change (zsum (x :: r)) with (x + zsum r).
+  rewrite (H x (or_introl eq_refl)), IH; [reflexivity|intros y Hy; apply H; right; exact Hy].
+Qed.
+Lemma dquo_zero_l : forall n, n <> 0 -> dquo 0 n = Ok 0.
+Proof. intros n H. unfold dquo. destruct (n =? 0) eqn:E; [lia|]. reflexivity. Qed.
+
+(* AverageDisbalance divides by the average value: any swap message -- whatever its pairs, even none
+   -- on a basket with tokens but no reserves (new, or fully redeemed) panics; the transaction
+   fails and nothing moves *)
+Theorem swap_without_reserves_panics : forall s now a ps t r,
+  b_sd (s_bk s) = false -> b_tokens (s_bk s) = t :: r -> (forall u, In u (t :: r) -> t_amount u = 0) ->
+  swap s now a ps = Panic "division by zero".
+Proof.
+  intros s now a ps t r Hd Ht Hz. unfold swap. rewrite Hd, Ht. unfold avg_disbalance.
+  destruct (token_values_zero (t :: r) Hz) as (vs & E & Z0). rewrite E. cbn [bind].
+  rewrite (zsum_zero vs Z0).
+  assert (N : dec_of_int (Z.of_nat (List.length (t :: r))) <> 0).
+  { unfold dec_of_int. cbn [List.length]. pose proof PREC_pos. lia. }
+  rewrite (dquo_zero_l _ N). cbn [bind].
+  destruct vs as [|x vs']; [cbn [token_values] in E; unfold token_value in E; destruct (dmul _ _); cbn [bind] in E; [destruct (token_values r); discriminate|discriminate|discriminate]|].
+  cbn [abs_disbalances]. reflexivity.
+Qed.
+
+(* ---------------------------------------------------------------- the checker's books clause and the invariant *)
+Lemma rsum_absent : forall ts d, (forall t, In t ts -> t_denom t <> d) -> rsum ts d = 0.
+Proof.
+  induction ts as [|t r IH]; intros d H; [reflexivity|]. rewrite rsum_cons, IH by (intros u Hu; apply H; right; exact Hu).
+  pose proof (H t (or_introl eq_refl)). destruct (t_denom t =? d) eqn:Q; lia.
+Qed.
+Lemma ssum_absent : forall cs d, (forall c, In c cs -> fst c <> d) -> ssum cs d = 0.
+Proof.
+  induction cs as [|c r IH]; intros d H; [reflexivity|]. rewrite ssum_cons, IH by (intros u Hu; apply H; right; exact Hu).
+  pose proof (H c (or_introl eq_refl)). destruct (fst c =? d) eqn:Q; lia.
+Qed.
+Lemma existsb_eqb_in : forall l x, existsb (Z.eqb x) l = true -> In x l.
+Proof. intros l x H. apply existsb_exists in H. destruct H as (y & Hy & E). assert (x = y) by lia. subst. exact Hy. Qed.
+
+(* an observation accepted by the checker's [books] clause is a state satisfying [Books] *)
+Theorem books_reflects : forall p, books p = true -> (forall d, ~ In d (denoms_of p) -> bal_at p MODULE d = 0) ->
+  Books (state_of_post p).
+Proof.
+  intros p H Hout. unfold books in H. repeat (apply andb_prop in H; destruct H as [H ?]).
+  rename H0 into Hsur, H1 into Htok, H2 into Hbal.
+  split; [cbn; lia|]. intros d. cbn [state_of_post init_state s_bk s_bal].
+  change (bal_of_lists (p_bals p) MODULE d) with (bal_at p MODULE d).
+  destruct (in_dec Z.eq_dec d (denoms_of p)) as [I|I].
+  - rewrite forallb_forall in Hbal. specialize (Hbal d I). unfold rec_reserve, rec_surplus in Hbal. unfold rsum, ssum. lia.
+  - rewrite (Hout d I), rsum_absent, ssum_absent; [lia| |].
+    + intros c Hc E. rewrite forallb_forall in Hsur. specialize (Hsur c Hc). apply existsb_eqb_in in Hsur. congruence.
+    + intros t Ht E. rewrite forallb_forall in Htok. specialize (Htok t Ht). apply existsb_eqb_in in Htok. congruence.
+Qed.
+(* hence: from an accepted observation every model step of a holder keeps the books *)
+Corollary books_clause_sound_step : forall v p o s', books p = true ->
+  (forall d, ~ In d (denoms_of p) -> bal_at p MODULE d = 0) -> fee_ok (p_bk p) -> op_ok o ->
+  step v (state_of_post p) o = Ok s' -> Books s'.
+Proof.
+  intros v p o s' Hb Hout Hf Hok Hs.
+  assert (I : Inv (state_of_post p)) by (split; [apply books_reflects; assumption|exact Hf]).
+  apply (step_inv _ _ _ _ Hs Hok I).
+Qed.
